@@ -35,7 +35,9 @@ def load(root):
             mp = os.path.join(sd, d, 'meta.json')
             if os.path.exists(mp):
                 meta = json.load(open(mp))
-                items.append(dict(name='seeded/' + d, props=[meta['property']] + meta.get('also', []), kind='seeded',
+                # judge_as: the change was written for meta['property'] but breaks, as stated, another property
+                # (meta['why_judge_as']); the self-test then runs that property's check
+                items.append(dict(name='seeded/' + d, props=[meta.get('judge_as', meta['property'])] + meta.get('also', []), kind='seeded',
                                   patch=os.path.join(sd, d, 'patch.diff'), tier=meta.get('tier', 'quick'), judged=meta.get('judged', True)))
     return items
 
